@@ -514,8 +514,73 @@ pub fn run_c11(run: &RunInfo) -> Summary {
             }
         }
     });
+    // ---- whole-file uploads: the terminal fetches a file front to back (and two files alternately),
+    //      which is what an update really does; includes files larger than any internal buffer
+    {
+        let sizes: Vec<usize> = if thorough { vec![0, 1, 999, 65535, 65536, 65537, 70_000, 131_073, 204_800] } else { vec![0, 1, 65537, 70_000, 204_800] };
+        let blks: Vec<u32> = if thorough { vec![1000, 999, 255, 1024, 10_000, 30_000, 32_768, 65_535] } else { vec![999, 1024, 10_000, 30_000, 32_768] };
+        let mut seq_cases: Vec<(DirSpec, u32)> = vec![];
+        let mut k = 10_000;
+        for &sz in &sizes {
+            let d = make_dir(&root, k, &[(0x11, sz), (0x23, sz / 2 + 3)], false, run.seed);
+            k += 1;
+            for &b in &blks {
+                if sz / (b as usize) <= 400 {
+                    seq_cases.push((d.clone(), b));
+                }
+            }
+        }
+        let a = par_for(seq_cases.len(), |ci, acc| {
+            let (dir, b) = &seq_cases[ci];
+            let mk = |id: u8| -> Vec<Req> {
+                let size = dir.files.iter().find(|(i, _)| *i == id).unwrap().1;
+                let mut v = vec![];
+                let mut off = 0usize;
+                loop {
+                    v.push(Req::Data { id: Some(id), offset: Some(off as u32) });
+                    if off >= size {
+                        break;
+                    }
+                    off += *b as usize;
+                }
+                v
+            };
+            let (a, c) = (mk(0x11), mk(0x23));
+            let mut alt = vec![];
+            for i in 0..a.len().max(c.len()) {
+                if let Some(x) = a.get(i) {
+                    alt.push(x.clone());
+                }
+                if let Some(x) = c.get(i) {
+                    alt.push(x.clone());
+                }
+            }
+            let mut both = a.clone();
+            both.extend(c.clone());
+            for (label, script) in [("file 0x11 front to back", a), ("0x11 then 0x23 front to back", both), ("0x11 and 0x23 alternately", alt)] {
+                let up = Upload { dir, seed: run.seed, block: *b, password: 123456, requests: script.clone(), finish: Some(true), dropped: false };
+                let (problems, events) = check_upload(&table, &up);
+                acc.count("executions", 1);
+                acc.count("transitions", (script.len() + 2) as u64);
+                acc.count("w_sequential", 1);
+                acc.set("outcomes", h64(&("seq", &dir.files, b, label, problems.is_empty())));
+                if !problems.is_empty() {
+                    let tail: Vec<String> = events.iter().rev().take(12).rev().map(|e| format!("  {}", match e { Ev::Write(w) => format!("Write({})", hex_short(w)), other => format!("{other:?}").chars().take(100).collect() })).collect();
+                    acc.violation(viol(
+                        format!("c11/sequential/files={:02x?}/block={b}/{label}", dir.files),
+                        format!("whole-file upload ({label}), files {:02x?}, block size {b}, {} requests\n{}\nlast events:\n{}", dir.files, script.len(), problems.join("\n"), tail.join("\n")),
+                        script.len() as u64,
+                    ));
+                }
+            }
+        });
+        acc.merge(a);
+    }
     let _ = std::fs::remove_dir_all(&root);
     drop(silencer);
+    if acc.get("w_sequential") > 0 {
+        acc.witness("whole files were uploaded front to back");
+    }
     acc.count("directories", cases.len() as u64);
     acc.sample(json!({"files": "[(10, 17), (13, 7)]", "block": 8, "requests": "req(10,16), req(13,7)", "expected": "block = file[16..17], then an empty block (payload tag absent)"}));
     acc.sample(json!({"files": "[(20, 3)]", "block": 2, "requests": "req(77,0)", "expected": "one error, no data block"}));
@@ -526,13 +591,14 @@ pub fn run_c11(run: &RunInfo) -> Summary {
         transitions: acc.get("transitions"),
         traces_validated: execs,
         distinct_nontrivial: acc.set_len("outcomes"),
-        rule: format!("{} payload directories on disk (none, each of the 21 recognised paths alone, all pairs and triples over six representative paths, all 21 together incl. a 200 KiB file; each with and without unrelated files; file sizes 0,1,B-1,B,B+1,2B,2B+1) x block sizes {{1,2,3,8,255,256,1024,32768}} ({}) x all request scripts of length <= 2 (3 for small directories in thorough) over {{announced ids, a recognised-but-absent id, 0x77}} x offsets {{0,1,B-1,B,size-1,size,size+1,2^32-1}} + requests without id / offset / file container / TLV, ended by completion or abort. File content is a function of (id, offset, seed). distinct_nontrivial = distinct (directory, block, script, ending) cases", cases.len(), if thorough { "all combinations" } else { "two block sizes per shape, rotating" }),
+        rule: format!("{} payload directories on disk (none, each of the 21 recognised paths alone, all pairs and triples over six representative paths, all 21 together incl. a 200 KiB file; each with and without unrelated files; file sizes 0,1,B-1,B,B+1,2B,2B+1) x block sizes {{1,2,3,8,255,256,1024,32768}} ({}) x all request scripts of length <= 2 (3 for small directories in thorough) over {{announced ids, a recognised-but-absent id, 0x77}} x offsets {{0,1,B-1,B,size-1,size,size+1,2^32-1}} + requests without id / offset / file container / TLV, ended by completion or abort; plus whole-file uploads (one file front to back, two files one after the other, two files alternately) for file sizes up to 200 KiB incl. 65535/65536/65537 and block sizes that do and do not divide 65536. File content is a function of (id, offset, seed). distinct_nontrivial = distinct (directory, block, script, ending) cases", cases.len(), if thorough { "all combinations" } else { "two block sizes per shape, rotating" }),
         exhaustive: true,
         required_witnesses: vec![
             "valid requests were answered with the file's bytes".into(),
             "invalid requests ended the upload with an error".into(),
             "all 21 recognised files announced".into(),
             "directory without recognised files rejected".into(),
+            "whole files were uploaded front to back".into(),
         ],
         assumptions: vec!["the order of the announced file list is not specified (compared as a set)".into(), "file content depends on VERIF_SEED; the set of cases does not".into()],
         bounds: json!({"script_length": 2, "directories": cases.len()}),
